@@ -806,6 +806,32 @@ example : attributeString 0 ⟨true, id, fun _ => []⟩
     [(ofS "id", .str []), (ofS "class", .list 1 [ofS "a", ofS "b"]), (ofS "checked", .none)]
     = .ok (ofS " checked class=\"a b\" id") := by decide +kernel
 
+/-- Parsed, then written back (any dictionary class, any list class, replace policy, any formatter): every attribute of
+    the start tag comes out once; a multi-valued one as `k="…"` with its tokens separated by single spaces (whatever
+    whitespace the source had), any other one with its last value verbatim (before entity substitution and quoting);
+    nothing raises. -/
+theorem parsed_then_rendered (md : Nat) (lower : PStr → PStr) (m : CdataMap) (hm : m ≠ []) (cls : DictClass)
+    (lc : Nat) (x : Bool) (name : PStr) (attrs : List (PStr × Option PStr)) (f : FmtCfg) :
+    ∃ t, parseStartTag md lower ⟨some m, cls, lc, x⟩ .replace name attrs = .ok t ∧
+      ∀ k v, dictGet t.items k = some v →
+        ∃ s, (valsOf attrs k).getLast? = some s ∧
+          formatAttr md f (k, v) = .ok (k ++ 61 :: quotedAttributeValue
+            (f.subst (if isMulti m lower name k then joinSp (splitWs s) else s))) := by
+  obtain ⟨t, h1, _, _, _, h5⟩ := parsed_start_tag md lower m hm cls lc x name attrs
+  refine ⟨t, h1, fun k v hv => ?_⟩
+  rw [h5 k] at hv
+  cases hl : (valsOf attrs k).getLast? with
+  | none => simp [hl] at hv
+  | some s =>
+    refine ⟨s, rfl, ?_⟩
+    simp only [hl, Option.map_some, Option.some.injEq] at hv
+    subst hv
+    cases isMulti m lower name k <;> simp [formatAttr, renderVal]
+
+example : attributeString 0 ⟨false, id, fun _ => []⟩
+    [(ofS "rel", .list 1 (splitWs (ofS " y\t\tz "))), (ofS "id", .str (ofS "p  q"))]
+    = .ok (ofS " id=\"p  q\" rel=\"y z\"") := by decide +kernel
+
 /-! ## reading and deleting -/
 
 /-- `get_attribute_list` always gives a list: the stored list itself for a multi-valued attribute; `[value]` in the
